@@ -1,4 +1,5 @@
 """Abstract state of the STIR interpreter: values, memory objects, facts, frames."""
+import math
 from .terms import Lin, L, ZERO, eval_lin, base_atoms
 
 INF = 1 << 200
@@ -165,16 +166,24 @@ class State(object):
     def lower(self, d):
         lo = self.irange(d)[0]
         if d.t:
+            dmap = dict(d.t)
             for f in self.facts:
                 e = d - f
                 elo = e.c if not e.t else self.irange(e)[0]
                 if elo > lo:
                     lo = elo
                 if lo < 0:
-                    e = e - f
-                    elo = e.c if not e.t else self.irange(e)[0]
-                    if elo > lo:
-                        lo = elo
+                    # scaled use of the fact: k chosen so that one atom cancels
+                    ks = set()
+                    for (a, fc) in f.t:
+                        dc = dmap.get(a)
+                        if dc and dc * fc > 0 and dc % fc == 0 and dc // fc > 1:
+                            ks.add(dc // fc)
+                    for k in ks:
+                        e = d - f.scale(k)
+                        elo = e.c if not e.t else self.irange(e)[0]
+                        if elo > lo:
+                            lo = elo
             if lo < 0 and len(self.facts) <= 14:
                 n = len(self.facts)
                 for i in range(n):
@@ -238,6 +247,12 @@ class State(object):
                 self.rng[a] = (lo, hi)
                 return self.propagate()
             return True
+        # integer tightening: g*(sum) + c >= 0  <=>  sum + floor(c/g) >= 0
+        g = 0
+        for a, k in d.t:
+            g = math.gcd(g, abs(k))
+        if g > 1:
+            d = Lin(d.c // g, tuple((a, k // g) for a, k in d.t))
         if self.upper(d) < 0:
             return False
         if self.lower(d) >= 0:
